@@ -11,7 +11,7 @@ CASE_TIMEOUT = 60.0
 FILLER = {"secp-sign-rand"}
 ASSUMPTIONS = [
     "curve_facts / curve_facts_x for secp256k1 (group laws, prime order n, x-coordinate determines the point up to sign, G generates "
-    "the group) are EXPLICIT PREMISES of the algebraic theorems; they are proved by kernel computation for y^2=x^3+7 over F_43, F_79, F_67",
+    "the group) are EXPLICIT PREMISES of the algebraic theorems; curve_facts is PROVED for secp256k1 itself (coq/GL, Props/Secp256k1.v) and both are proved by kernel computation for y^2=x^3+7 over F_43, F_79, F_67; for secp256k1 only `G generates every curve point` remains a premise (nonce-collision theorem)",
     "sha256 is an arbitrary function in the theorems about sig/sig_verify; hashlib answers it at run time",
     "secrets.randbelow is replaced by a scripted list of draws inside the worker; the theorems quantify over all draw lists",
     "modelled, not verified: ecmath.sign/verify, utils.der_encode_sig/der_decode_sig/sig/sig_verify, pem.parse_asn1/encode_parsed_asn1",
